@@ -335,6 +335,14 @@ def _fit_cases(ctx):
     out.append({'kind': 'fit', 'shape': [81, 95], 'x0': 47.6, 'y0': 39.9, 'eps': 0.1, 'pa': pa75, 'law': 'gauss',
                 'init': [48.05, 39.5, 0.108, pa75 - 0.007, 10.0],
                 'opts': {'minsma': 0.0, 'maxsma': 30.0, 'step': 0.15, 'fix_pa': True}, 'model': False})
+    # the range clause with a non-zero minsma that the inward pass steps over (linear growth) or that
+    # lies below the half-pixel floor: no isophote below minsma, in particular no central one
+    for opts in ({'minsma': 1.5, 'maxsma': 30.0, 'step': 2.0, 'linear': True},
+                 {'minsma': 0.3, 'maxsma': 25.0, 'step': 0.2},
+                 {'minsma': 2.5, 'maxsma': 30.0, 'step': 3.0, 'linear': True}):
+        pa = math.radians(40)
+        out.append({'kind': 'fit', 'shape': [81, 95], 'x0': 47.3, 'y0': 40.4, 'eps': 0.3, 'pa': pa, 'law': 'gauss',
+                    'init': [47.6, 40.1, 0.31, pa + 0.03, 10.0], 'opts': dict(opts), 'model': False})
     for j, fx in enumerate(fixes):
         eps, padeg, law = [(0.3, 40, 'gauss'), (0.6, 110, 'sersic'), (0.1, 75, 'gauss')][j % 3]
         shape = [81, 95]
